@@ -338,7 +338,7 @@ class GenericCheck(Check):
             return match == str(test_value)
 
         except (ValueError, TypeError, SyntaxError, MemoryError,
-                RecursionError):
+                RecursionError, OverflowError):
             pass
 
         path_segments = self.kind.split('.')
